@@ -145,6 +145,13 @@ CLAIMED = {
             "Server view of the client settings and every derived enforcement point equal the "
             "client's local settings for all values; stream 1 half-closed on both sides; next ids "
             "3 / 2; GOAWAY last-stream-id; late frames on stream 1.", "7/C25"),
+    'C15': ("symbolic execution of the real inbound pipeline (receive_headers, validate_headers, "
+            "cookie joining, decoding) on header blocks containing a field whose name and value "
+            "are strings of solver variables (CellBytes: every cell 0..255), compared with an "
+            "independent branch-free RFC 7540 8.1.2 predicate",
+            "delivered <=> conformant for every byte content of the symbolic field at every "
+            "position, in every block position and inbound configuration; delivered list == "
+            "decoded block (cookies joined last, text when header_encoding is set).", "7/C15"),
 }
 
 NOT_YET = {}
